@@ -84,7 +84,9 @@ def is_cache_name(name):
 
 ERR_TYPES = {"io": InjectedError, "conn": ConnectionError, "timeout": TimeoutError, "runtime": RuntimeError,
              "value": ValueError, "os": OSError, "interrupted": InterruptedError, "blocking": BlockingIOError,
-             "perm": PermissionError, "eof": EOFError, "key": KeyError}
+             "perm": PermissionError, "eof": EOFError, "key": KeyError,
+             # warnings.warn() in a process that turns warnings into errors: exceptions that derive from Warning
+             "warning": RuntimeWarning, "userwarning": UserWarning}
 
 
 class _QuietTqdm:
@@ -360,7 +362,7 @@ class World:
         self.director = RunDirector(self, record)
         if record_mut_trace:
             self.director.mut_trace = []
-        self.sched = Sched(self.director, step_cap=k.get("step_cap", 60_000), log_events=keep_log)
+        self.sched = Sched(self.director, step_cap=k.get("step_cap", 300_000 if k.get("mass_eviction") else 60_000), log_events=keep_log)
         self.sched.clock = self.clock
         self.fs = SimFS(self.clock, self.sched, atime_policy=k.get("atime", "relatime"),
                         listing=k.get("listing", "sorted"), rng=random.Random(mix(record["seed"], "fs")),
